@@ -34,7 +34,11 @@ ALLOWED_AXIOMS = {"propext", "Classical.choice", "Quot.sound"}
 C2LEAN_FNS = ["m_get_high_bit", "m_get_mode", "m_get_reserved", "m_get_resolution",
               "m_get_base_cell", "m_get_digit", "m_set_high_bit", "m_set_mode",
               "m_set_reserved", "m_set_resolution", "m_set_base_cell", "m_set_digit",
-              "m_reserved_mask_negative", "m_h3_init", "isValidCell", "_zeroIndexDigits"]
+              "m_reserved_mask_negative", "m_h3_init", "isValidCell", "_zeroIndexDigits",
+              # loops with a bounded trip count, unrolled by the translator (the `_defined` companions prove that the
+              # unrolling suffices for every input)
+              "_h3LeadingNonZeroDigit", "_rotate60ccw", "_rotate60cw", "_h3Rotate60ccw", "_h3Rotate60cw"]
+C2LEAN_UNROLL = {"_h3LeadingNonZeroDigit": 16, "_h3Rotate60ccw": 16, "_h3Rotate60cw": 16}
 
 
 def log(*a):
@@ -93,9 +97,12 @@ def regenerate(prep):
     tmp = os.path.join(BUILD, "BitFns.lean.tmp")
     cmd = [sys.executable, os.path.join(VERIF, "tools", "c2lean.py"), "--out", tmp,
            "--file", os.path.join(H, "macros_tu.c"),
-           "--file", os.path.join(h3build.LIBSRC, "h3Index.c")]
+           "--file", os.path.join(h3build.LIBSRC, "h3Index.c"),
+           "--file", os.path.join(h3build.LIBSRC, "coordijk.c")]
     for f in C2LEAN_FNS:
         cmd += ["--fn", f]
+    for f, n_ in C2LEAN_UNROLL.items():
+        cmd += ["--unroll", f"{f}={n_}"]
     cmd += ["--", "-I", inc, "-I", h3build.LIBINC, "-DH3_PREFIX="]
     r = subprocess.run(cmd, capture_output=True, text=True)
     if r.returncode != 0:
